@@ -446,7 +446,29 @@ def retry_wiring():
     ]
 
 
-GROUPS = ["cancel", "mismatch", "exit", "setdef", "escape", "signals", "sighandler", "termchild", "termexit", "delayloop", "drainloop", "drainexit", "drainalways", "verdict", "weights", "retries", "mainloop", "interval", "placeholders", "xml"]
+def script_sequencing():
+    """executor.rs / imp.rs: setup scripts run one at a time, in order, and before any test is queued."""
+    ex = re.sub(r"\s+", " ", strip_comments(read("nextest-runner/src/runner/executor.rs")))
+    imp = re.sub(r"\s+", " ", strip_comments(read("nextest-runner/src/runner/imp.rs")))
+    m = re.search(r"async fn run_setup_scripts\(.*?\) -> SetupScriptExecuteData<'a> \{(.*?)\} (?:pub\(super\) )?async fn ", ex)
+    if not m: raise RuntimeError("run_setup_scripts not found")
+    b = m.group(1)
+    rows = [
+        ("run_setup_scripts: the scripts are taken in the profile's order", "for (index, script) in setup_scripts.into_iter().enumerate() {" in b),
+        ("run_setup_scripts: each script's future is awaited inside the loop, before the next one is built", re.search(r"if let Some\(\(script, env_map\)\) = script_fut\.await \{ setup_script_data\.add_script\(script, env_map\); \} \} setup_script_data$", b.strip()) is not None),
+        ("run_setup_scripts: nothing is spawned or joined concurrently", not re.search(r"tokio::spawn|join_all|FuturesUnordered|buffer_unordered|join!", b)),
+        ("run_setup_scripts: a refused start runs nothing", re.search(r"let mut req_rx = match req_rx_rx\.await \{ Ok\(req_rx\) => req_rx, Err\(_\) => \{ return None; \} \};", b) is not None),
+        ("run_setup_scripts: only a script's own env map is handed on", re.search(r"let env_map = status\.env_map\.clone\(\);", b) is not None and re.search(r"env_map\.map\(\|env_map\| \(script, env_map\)\)", b) is not None),
+    ]
+    i = imp.find("let Some(script_data) = script_rx.blocking_recv() else {")
+    j = imp.find("let tests = self.test_list.to_priority_queue(self.profile);")
+    k = imp.find("executor_cx_ref.run_setup_scripts(")
+    if k < 0: k = imp.find(".run_setup_scripts(")
+    rows.append(("execute: the test queue is built only after the scripts' data has been received", 0 <= k < i < j))
+    return rows
+
+
+GROUPS = ["cancel", "mismatch", "exit", "setdef", "escape", "signals", "sighandler", "termchild", "termexit", "delayloop", "drainloop", "drainexit", "drainalways", "verdict", "weights", "retries", "scripts", "mainloop", "interval", "placeholders", "xml"]
 
 
 def group_lines(g):
@@ -530,6 +552,10 @@ def group_lines(g):
         rows = retry_wiring()
         return ["/-- imp.rs / executor.rs: the path of a forced retry policy, as wired -/",
                 "def retryWiring : List (String × Bool) := [" + ", ".join(f'("{a}", {"true" if b else "false"})' for a, b in rows) + "]"]
+    if g == "scripts":
+        rows = script_sequencing()
+        return ["/-- executor.rs / imp.rs: the sequencing of setup scripts, as written -/",
+                "def scriptSequencing : List (String × Bool) := [" + ", ".join(f'("{a}", {"true" if b else "false"})' for a, b in rows) + "]"]
     if g == "mainloop":
         keys = {"Stop": r"SignalRequest::Stop\(\w+\)", "Continue": r"SignalRequest::Continue"}
         arms = request_arms(strip_comments(read("nextest-runner/src/runner/executor.rs")), "handle_signal_request", keys)
